@@ -1241,6 +1241,25 @@ func phase3Systematic(emit func(cdoc)) {
 					emit(cdoc{kind: kind, doc: withMember(base, kw.name, jStr(o)), phase: 3, tags: []string{"phase3", "mutation:schema-url", "systematic", "kw:" + kw.name}})
 				}
 			}
+			if kw.special == "ref" {
+				// a reference next to exactly one other member, nothing else (no member of the base document): present, and
+				// present but empty
+				for _, other := range kindTable[kind].kws {
+					if other.special != "" {
+						continue
+					}
+					vals, _ := minVals(other)
+					refd := jObj(mem(kw.name, jStr(canonicalRefs[0])))
+					d1 := refd.clone()
+					d1.set(other.name, vals[0].clone())
+					emit(cdoc{kind: kind, doc: d1, nf: kind == "Schema", phase: 2, tags: []string{"ref-with-one-member", "systematic", "kw:" + other.name}})
+					for _, e := range []string{`{}`, `[]`, `""`, `null`, `false`, `0`} {
+						d2 := refd.clone()
+						d2.set(other.name, mustJV(e))
+						emit(cdoc{kind: kind, doc: d2, phase: 3, tags: []string{"phase3", "ref-with-empty-member", "systematic", "kw:" + other.name}})
+					}
+				}
+			}
 			if kw.special == "ref" { // every odd spelling of a reference, on every kind that can hold one
 				for _, o := range oddRefs {
 					emit(cdoc{kind: kind, doc: withMember(base, kw.name, jStr(o)), phase: 3, tags: []string{"phase3", "mutation:ref", "systematic", "kw:" + kw.name}})
